@@ -156,6 +156,20 @@ fn ep_distinfo(b: &[u8]) {
         let p = Path::new(OsStr::from_bytes(b));
         let _ = d.find_entry(p);
         let _ = EntryType::from(p);
+        // the path-taking verification entry points, confined below a directory that does not
+        // exist (an input such as /dev/zero must not be opened)
+        let rel: Vec<u8> = b.iter().copied().skip_while(|c| *c == b'/').collect();
+        let q = Path::new("/nonexistent-verif-root").join(OsStr::from_bytes(&rel));
+        let _ = d.verify_size(&q);
+        let _ = d.verify_checksum(&q, Digest::SHA1);
+        let _ = d.verify_checksums(&q);
+        let _ = Distinfo::calculate_size(&q);
+        let _ = Distinfo::calculate_checksum(&q, Digest::MD5);
+        for e in d.distfiles().iter().chain(d.patchfiles().iter()).take(4) {
+            let _ = e.verify_size(&q);
+            let _ = e.verify_checksums(&q);
+            let _ = e.verify_checksum(&q, Digest::RMD160);
+        }
     }
 }
 
@@ -207,6 +221,32 @@ fn ep_failing_readers(b: &[u8]) {
     }
 }
 
+/// Package-database iteration, addressed by a description ("pkgdb layout mask N" / "pkgdb with N
+/// stray files") so that a hang found there replays like any other call.
+fn ep_pkgdb(b: &[u8]) {
+    let s = String::from_utf8_lossy(b).into_owned();
+    let base = std::env::var("VERIF_SCRATCH").map(std::path::PathBuf::from).unwrap_or_else(|_| std::env::temp_dir());
+    let root = base.join(format!("replay-db-{}", std::process::id()));
+    let _ = std::fs::remove_dir_all(&root);
+    if let Some(mask) = s.strip_prefix("pkgdb layout mask ").and_then(|m| m.trim().parse::<u32>().ok()) {
+        if build_db(&root, mask).is_ok() {
+            walk_db(&root);
+        }
+    } else if let Some(n) = s.strip_prefix("pkgdb with ").and_then(|m| m.split(' ').next()).and_then(|m| m.parse::<usize>().ok()) {
+        if std::fs::create_dir_all(root.join("pkg-1.0")).is_ok() {
+            for f in ["+COMMENT", "+CONTENTS", "+DESC"] {
+                let _ = std::fs::write(root.join("pkg-1.0").join(f), b"x\n");
+            }
+            for i in 0..n {
+                let _ = std::fs::File::create(root.join(format!("stray{}", i)));
+            }
+            let _ = PkgDB::open(&root).map(|db| db.count());
+        }
+    }
+    let _ = std::fs::remove_dir_all(&root);
+    let _ = std::fs::remove_dir_all(root.with_extension("linked-target"));
+}
+
 fn ep_digest_name(b: &[u8]) {
     let Ok(s) = std::str::from_utf8(b) else { return };
     match Digest::from_str(s) {
@@ -253,7 +293,7 @@ fn ep_metadata(b: &[u8]) {
 }
 
 type Ep = fn(&[u8]);
-const EPS: [(&str, Ep); 12] = [
+const EPS: [(&str, Ep); 13] = [
     ("pattern", ep_pattern),
     ("dewey", ep_dewey),
     ("pkgname", ep_pkgname),
@@ -266,6 +306,7 @@ const EPS: [(&str, Ep); 12] = [
     ("digest-name", ep_digest_name),
     ("metadata", ep_metadata),
     ("failing-readers", ep_failing_readers),
+    ("pkgdb", ep_pkgdb),
 ];
 
 fn ep_index(name: &str) -> usize {
@@ -341,6 +382,24 @@ fn journal(line: &str) {
     if let Some(j) = JOURNAL.get() {
         let _ = j.lock().unwrap().write_all(line.as_bytes());
     }
+}
+
+/// Run `f` under the watchdog (CPU-time limit `limit_ms`), reporting a description as its input.
+fn watched<T>(what: &str, limit_ms: u64, f: impl FnOnce() -> T) -> Result<T, String> {
+    let slot = &slots()[MY_SLOT.with(|s| *s)];
+    {
+        let mut b = slot.input.lock().unwrap();
+        b.clear();
+        b.extend_from_slice(what.as_bytes());
+    }
+    slot.ep.store(ep_index("pkgdb"), Ordering::Relaxed);
+    slot.limit_ms.store(limit_ms, Ordering::Relaxed);
+    *slot.started.lock().unwrap() = Some(Instant::now());
+    slot.seq.fetch_add(1, Ordering::SeqCst);
+    slot.busy.store(true, Ordering::SeqCst);
+    let r = mc_core::guard(f);
+    slot.busy.store(false, Ordering::SeqCst);
+    r
 }
 
 /// One guarded, watched call of an entry point.
@@ -442,10 +501,11 @@ fn start_watchdog(run: &'static Run) {
                         let mut t = Tally::new();
                         t.states += 1;
                         t.evals += 1;
+                        t.transitions += 1;
                         t.outcome("hang");
                         t.violation(Violation::new(
                             "call",
-                            json!({"entry": EPS[ep].0, "input": input_json(&input)}),
+                            json!({"entry": EPS[ep].0, "input": input_json(&input), "limit_ms": limit}),
                             json!(format!("returns within {} ms of CPU time", limit)),
                             json!(obs),
                             "an entry point did not return promptly",
@@ -690,7 +750,7 @@ fn heavy_inputs(reps: usize) -> Vec<(usize, Vec<u8>)> {
     // multi-byte straddles: for every byte offset up to the string's length some member has a
     // multi-byte character across it, so any byte-indexed cut, excerpt or buffer boundary inside
     // these inputs lands inside a character for one of them
-    for bytes in if reps > 50_000 { vec![200usize, 70_000, 1_200_000] } else { vec![200usize, 70_000] } {
+    for bytes in if reps > 50_000 { vec![200usize, 70_000, 300_000] } else { vec![200usize, 70_000] } {
         for sv in mc_core::chars::straddles(bytes) {
             let shapes: Vec<(&str, Vec<String>)> = vec![
                 ("pattern", vec![format!("p-{}", sv), format!("p>={}", sv), format!("{}-1.0", sv), sv.clone(), format!("p-[{}]*", sv), format!("{{a,{}}}-1", sv), format!("{}>=1<2", sv)]),
@@ -798,7 +858,7 @@ fn check_db_many_strays(t: &mut Tally, scratch: &Path, n: usize) {
     let root = scratch.join(format!("strays{}", n));
     let _ = std::fs::remove_dir_all(&root);
     if std::fs::create_dir_all(root.join("pkg-1.0")).is_err() {
-        return;
+        mc_core::run::machinery_fault("cannot build the scratch package database");
     }
     for f in ["+COMMENT", "+CONTENTS", "+DESC"] {
         let _ = std::fs::write(root.join("pkg-1.0").join(f), b"x\n");
@@ -807,7 +867,7 @@ fn check_db_many_strays(t: &mut Tally, scratch: &Path, n: usize) {
         let _ = std::fs::File::create(root.join(format!("stray{}", i)));
     }
     journal(&format!("I 0 {}\n", hex(format!("pkgdb with {} stray files", n).as_bytes())));
-    let r = mc_core::guard(|| PkgDB::open(&root).map(|db| db.count()).unwrap_or(0));
+    let r = watched(&format!("pkgdb with {} stray files", n), 10_000, || PkgDB::open(&root).map(|db| db.count()).unwrap_or(0));
     let _ = std::fs::remove_dir_all(&root);
     match r {
         Ok(1) => t.outcome("pkgdb/many-strays-ok"),
@@ -822,15 +882,9 @@ fn check_db(t: &mut Tally, scratch: &Path, mask: u32) {
     let root = scratch.join(format!("db{}", mask));
     let _ = std::fs::remove_dir_all(&root);
     if build_db(&root, mask).is_err() {
-        return;
+        mc_core::run::machinery_fault("cannot build the scratch package database");
     }
-    let slot = &slots()[MY_SLOT.with(|s| *s)];
-    {
-        let mut b = slot.input.lock().unwrap();
-        b.clear();
-        b.extend_from_slice(format!("pkgdb layout mask {}", mask).as_bytes());
-    }
-    let r = mc_core::guard(|| {
+    let r = watched(&format!("pkgdb layout mask {}", mask), 2000, || {
         walk_db(&root);
         // a database path that is a plain file, and one that does not exist
         let _ = PkgDB::open(&root.join("plainfile-1")).map(|db| db.count());
@@ -877,14 +931,17 @@ fn plan(thorough: bool) -> Plan {
     let shorts = short_seeds();
     let heavy = heavy_inputs(if thorough { 100_000 } else { 20_000 });
     let mut items = vec![];
+    let mut seq_items = vec![];
     for (fi, f) in fams.iter().enumerate() {
         let max = if thorough { f.thorough } else { f.quick };
         let split = 2.min(max);
         let k = f.alphabet.len();
         let mut pre = vec![];
-        let mut collect = |s: &[usize]| items.push(Item::Seqs { fam: fi, prefix: s.to_vec(), whole: s.len() == split });
+        let mut collect = |s: &[usize]| seq_items.push(Item::Seqs { fam: fi, prefix: s.to_vec(), whole: s.len() == split });
         seqs::dfs(k, split, &mut pre, &|_| false, &mut collect);
     }
+    // the small, structurally different families first: if the wall-clock budget is ever reached
+    // (slow machine), what is cut is the tail of the big enumerations, never a whole family
     for si in 0..seeds.len() {
         items.push(Item::Mutate { seed: si });
         items.push(Item::Huge { seed: si });
@@ -911,6 +968,7 @@ fn plan(thorough: bool) -> Plan {
     for n in if thorough { vec![4_000usize, 30_000, 200_000] } else { vec![4_000usize, 30_000] } {
         items.push(Item::PkgdbStrays { n });
     }
+    items.extend(seq_items);
     Plan { fams, seeds, shorts, heavy, items, thorough }
 }
 
@@ -1139,6 +1197,7 @@ fn supervisor_main(run: &'static Run) -> ! {
             let mut t = Tally::new();
             t.states += 1;
             t.evals += 1;
+            t.transitions += 1;
             t.outcome("abort");
             let mut reported = false;
             for item in open.iter().take(32) {
@@ -1183,18 +1242,30 @@ fn replay_main(run: &'static Run, doc: &Value) -> ! {
         let _ = std::fs::remove_dir_all(&scratch);
         run.finish_replay(v, t2.violations.into_iter().next());
     }
+    if doc["kind"] == "pkgdb-strays" {
+        let n = c["stray_files"].as_u64().unwrap_or(4000) as usize;
+        let scratch = run.scratch_dir();
+        let mut t = Tally::new();
+        check_db_many_strays(&mut t, &scratch, n);
+        let mut t2 = Tally::new();
+        check_db_many_strays(&mut t2, &scratch, n);
+        let _ = std::fs::remove_dir_all(&scratch);
+        run.finish_replay(t.violations.into_iter().next(), t2.violations.into_iter().next());
+    }
+    // the CPU-time limit the exploration applied to this call (2 s, 10 s for the long inputs)
+    let limit = c["limit_ms"].as_u64().unwrap_or(10_000);
     let once = || -> Option<Violation> {
         let exe = std::env::current_exe().ok()?;
         let scratch = run.scratch_dir();
         let f = scratch.join("one-input.json");
         std::fs::write(&f, c.to_string()).ok()?;
-        let mut child = std::process::Command::new(exe).env("VERIF_C17_ROLE", format!("one:{}", f.display())).spawn().ok()?;
+        let mut child = std::process::Command::new(exe).env("VERIF_C17_ROLE", format!("one:{}", f.display())).env("VERIF_SCRATCH", &scratch).spawn().ok()?;
         let start = Instant::now();
         let status = loop {
             match child.try_wait() {
                 Ok(Some(st)) => break Some(st),
                 Ok(None)
-                    if proc_cpu(&format!("/proc/{}/stat", child.id())).map(|(cpu, _)| cpu > 15_000).unwrap_or(false)
+                    if proc_cpu(&format!("/proc/{}/stat", child.id())).map(|(cpu, _)| cpu > limit + 500).unwrap_or(false)
                         || start.elapsed() > Duration::from_secs(300) =>
                 {
                     let _ = child.kill();
@@ -1208,7 +1279,7 @@ fn replay_main(run: &'static Run, doc: &Value) -> ! {
         match status {
             Some(st) if st.code() == Some(0) => None,
             Some(st) => Some(Violation::new("call", c.clone(), json!("returns normally"), json!(format!("{}", if st.code() == Some(3) { "panic".to_string() } else { format!("abnormal exit {:?}", st.code()) })), "")),
-            None => Some(Violation::new("call", c.clone(), json!("returns promptly"), json!("no return within 15 s of CPU time"), "")),
+            None => Some(Violation::new("call", c.clone(), json!("returns promptly"), json!(format!("no return within {} ms of CPU time", limit)), "")),
         }
     };
     let (a, b) = (once(), once());
@@ -1222,9 +1293,11 @@ fn one_main(path: &str) -> ! {
     let ep = ep_index(c["entry"].as_str().unwrap_or("pattern"));
     let input = bytes_from_json(&c["input"]);
     std::panic::set_hook(Box::new(|_| {}));
-    match mc_core::guard(|| (EPS[ep].1)(&input)) {
-        Ok(()) => std::process::exit(0),
-        Err(_) => std::process::exit(3),
+    // on a thread with the default 2 MiB stack, like the exploration's workers
+    let r = std::thread::Builder::new().stack_size(2 << 20).spawn(move || mc_core::guard(|| (EPS[ep].1)(&input))).map(|h| h.join());
+    match r {
+        Ok(Ok(Ok(()))) => std::process::exit(0),
+        _ => std::process::exit(3),
     }
 }
 
